@@ -123,8 +123,11 @@ func (q *Queue[T]) doAdd(item T) error {
 		q.nempty.Signal()
 	}
 
-	// for the iterator, signal for any updates
-	q.nupdates.Signal()
+	// for the iterators: every one of them has to see the new
+	// item, and producers blocked in BlockingAdd wait on the same
+	// condition; waking a single waiter may reach one that just
+	// parks again.
+	q.nupdates.Broadcast()
 
 	return nil
 }
